@@ -48,7 +48,19 @@ func (x *c01) lmSpec(r sxRun) []specItem {
 	}
 	R := r.res[0]
 	parts := R.Parts()
-	if len(parts) != 2 || parts[0].Op != "des" || parts[1].Op != "des" {
+	wellFormed := len(parts) == 2
+	for _, p := range parts {
+		if p.Op != "des" || len(p.A) != 2 || len(p.KV) != 8 {
+			wellFormed = false
+			continue
+		}
+		for _, kv := range p.KV {
+			if len(kv) != 8 {
+				wellFormed = false
+			}
+		}
+	}
+	if !wellFormed {
 		it := specItem{rule: c01R2, construct: rc, msg: "the result is " + R.Short() + ", not two 8-byte DES ciphertexts one after the other"}
 		if R.HasTop() {
 			it.undecided, it.msg = true, "the result holds a value the evaluator does not describe ("+R.FirstTop()+")"
@@ -215,7 +227,9 @@ func (x *c01) wrapper(fn, raw *ssa.Function, args []argWant, hexed bool) {
 	}
 	name := x.P.FuncName(fn)
 	construct := fmt.Sprintf("%s: derives from %s", name, short(x.e.Name(raw)))
-	x.bySx(g, fn, nil, []*ssa.Function{fn}, map[string]int{c01R2: len(args) + 1}, func(r sxRun) []specItem {
+	// fn and the reference are both entered, so that a wrapper that calls the
+	// reference and one that repeats its body evaluate to the same term
+	x.bySx(g, fn, nil, []*ssa.Function{fn, raw}, map[string]int{c01R2: len(args) + 1}, func(r sxRun) []specItem {
 		ts := make([]*flow.Tm, len(args))
 		for i, a := range args {
 			t := paramTm(fn, a.param)
